@@ -60,35 +60,37 @@ static inline int c_wf_bits(const uint64_t* used, const uint64_t* stop, uint32_t
   if (pad && !((used[0] & 1) && (stop[0] & 1))) return 4;
   return 0;
 }
-static inline int c_wf_code(const struct JitAllocatorBlock* b) {
-  uint32_t n = b->_area_size, pad = b->_flags & F_PAD, fl = b->_flags;
-  const uint64_t* used = b->_used_bit_vector; const uint64_t* stop = b->_stop_bit_vector;
+static inline int c_wf_fields(const uint64_t* used, const uint64_t* stop, uint32_t n, uint32_t fl, uint32_t area_used, uint32_t ss, uint32_t se, uint32_t lua) {
+  uint32_t pad = fl & F_PAD;
   if (n < 2 || n > VERIF_W * 64) return 10;
-  int c = c_wf_bits(used, stop, n, pad, b->_area_used);
+  int c = c_wf_bits(used, stop, n, pad, area_used);
   if (c) return c;
-  if (b->_area_used < pad || b->_area_used > n) return 11;
-  _Bool full = b->_area_used == n;
-  if (((fl & F_EMPTY) != 0) != (b->_area_used == pad)) return 5;        /* B5 Empty <=> nothing but the padding is used */
+  if (area_used < pad || area_used > n) return 11;
+  _Bool full = area_used == n;
+  if (((fl & F_EMPTY) != 0) != (area_used == pad)) return 5;        /* B5 Empty <=> nothing but the padding is used */
   if (full) {                                                           /* B6 full block: closed window */
-    if (b->_search_start != n || b->_search_end != 0 || b->_largest_unused_area != 0 || (fl & F_DIRTY)) return 6;
+    if (ss != n || se != 0 || lua != 0 || (fl & F_DIRTY)) return 6;
     return 0;
   }
-  if (b->_search_start > b->_search_end || b->_search_end > n) return 13;
+  if (ss > se || se > n) return 13;
   for (unsigned w = 0; w < VERIF_W; w++) {                              /* B6 every free granule lies inside the search window */
     if ((uint32_t)w * 64 >= n) break;
     uint64_t valid = spec_range_mask64(w, 0, n);
-    uint64_t win = spec_range_mask64(w, b->_search_start, b->_search_end - b->_search_start);
+    uint64_t win = spec_range_mask64(w, ss, se - ss);
     if (~used[w] & valid & ~win) return 6;
   }
   if (fl & F_INCR) {                                                    /* B7 incremental: used is exactly the prefix [0, search_start) */
-    if (b->_search_end != n || b->_largest_unused_area != n - b->_search_start) return 7;
-    if (!spec_all_bits(used, VERIF_W, 0, b->_search_start, 1) || !spec_all_bits(used, VERIF_W, b->_search_start, n, 0)) return 7;
+    if (se != n || lua != n - ss) return 7;
+    if (!spec_all_bits(used, VERIF_W, 0, ss, 1) || !spec_all_bits(used, VERIF_W, ss, n, 0)) return 7;
   } else if (!(fl & F_DIRTY)) {                                         /* B8 clean cache: no free run inside the window is larger than advertised */
-    if (g_ra < g_rb && g_ra >= b->_search_start && g_rb <= b->_search_end && spec_all_bits(used, VERIF_W, g_ra, g_rb, 0) &&
-        g_rb - g_ra > b->_largest_unused_area) return 8;
+    if (g_ra < g_rb && g_ra >= ss && g_rb <= se && spec_all_bits(used, VERIF_W, g_ra, g_rb, 0) &&
+        g_rb - g_ra > lua) return 8;
   }
-  if ((fl & F_EMPTY) && !(b->_search_start == pad && b->_search_end == n && b->_largest_unused_area == n - pad)) return 9;
+  if ((fl & F_EMPTY) && !(ss == pad && se == n && lua == n - pad)) return 9;
   return 0;
+}
+static inline int c_wf_code(const struct JitAllocatorBlock* b) {
+  return c_wf_fields(b->_used_bit_vector, b->_stop_bit_vector, b->_area_size, b->_flags, b->_area_used, b->_search_start, b->_search_end, b->_largest_unused_area);
 }
 static inline _Bool c_wf_block(const struct JitAllocatorBlock* b) { return c_wf_code(b) == 0; }
 /* [s, e) is exactly one live allocation */
@@ -143,6 +145,51 @@ static inline _Bool c_live_tail(const struct JitAllocatorBlock* b, uint32_t s, u
   __CPROVER_ensures(self->_area_used == g_b0._area_used - (shrunk_area_end - shrunk_area_start)) \
   __CPROVER_ensures(self->_pool->total_area_used[LARGE(self)] == g_p0.total_area_used[LARGE(self)] - (shrunk_area_end - shrunk_area_start)) \
   __CPROVER_ensures(self->_pool->total_area_used[1 - LARGE(self)] == g_p0.total_area_used[1 - LARGE(self)] && c_pool_unchanged_but_used(self->_pool))
+
+/* allocation: alloc() has already adjusted the search cache of a well-formed block W (ghost g_b0 holds W's cache and flags):
+ *  (a) incremental fast path: s == W.search_start, W.largest >= size, largest already decremented;
+ *  (b) range search: [s, e) is a free run inside W's window, cache as in W;
+ *  (c) fresh block: W is the cleared block, search_start and largest already moved past the allocation.
+ * alloc() may have cleared kFlagEmpty before the call. */
+static inline _Bool c_alloc_pre(const struct JitAllocatorBlock* b, uint32_t s, uint32_t e) {
+  uint32_t n = b->_area_size, sz = e - s, wfl = g_b0._flags;
+  if (!(s < e && e <= n)) return 0;
+  if (c_wf_fields(b->_used_bit_vector, b->_stop_bit_vector, n, wfl, b->_area_used, g_b0._search_start, g_b0._search_end, g_b0._largest_unused_area)) return 0;
+  if (b->_flags != wfl && b->_flags != (wfl & ~F_EMPTY)) return 0;
+  if (!spec_all_bits(b->_used_bit_vector, VERIF_W, s, e, 0)) return 0;                      /* the granules are free */
+  if ((wfl & F_INCR) && g_b0._largest_unused_area >= sz) {
+    if (s != g_b0._search_start || b->_search_end != g_b0._search_end || b->_largest_unused_area != g_b0._largest_unused_area - sz) return 0;
+    return b->_search_start == g_b0._search_start                                             /* (a) */
+        || ((wfl & F_EMPTY) && b->_flags == wfl && b->_search_start == g_b0._search_start + sz); /* (c) */
+  }
+  if (wfl & F_INCR) return 0;
+  if (!(s >= g_b0._search_start && e <= g_b0._search_end)) return 0;                          /* (b) */
+  return b->_search_start == g_b0._search_start && b->_search_end == g_b0._search_end && b->_largest_unused_area == g_b0._largest_unused_area;
+}
+static inline _Bool c_block_snap_alloc(const struct JitAllocatorBlock* b) {
+  for (unsigned i = 0; i < VERIF_W; i++) if (b->_used_bit_vector[i] != g_used0[i] || b->_stop_bit_vector[i] != g_stop0[i]) return 0;
+  const struct JitAllocatorPool* p = b->_pool;
+  return b->_area_used == g_b0._area_used && b->_area_size == g_b0._area_size &&
+         p->total_area_used[0] == g_p0.total_area_used[0] && p->total_area_used[1] == g_p0.total_area_used[1] &&
+         p->total_area_size[0] == g_p0.total_area_size[0] && p->total_area_size[1] == g_p0.total_area_size[1] &&
+         p->block_count == g_p0.block_count && p->empty_block_count == g_p0.empty_block_count && p->granularity == g_p0.granularity &&
+         p->granularity_log2 == g_p0.granularity_log2 && p->total_overhead_bytes == g_p0.total_overhead_bytes;
+}
+#define CONTRACT_JitAllocatorBlock_mark_allocated_area \
+  __CPROVER_requires(__CPROVER_is_fresh(self, sizeof(*self))) \
+  __CPROVER_requires(__CPROVER_is_fresh(self->_pool, sizeof(*self->_pool))) \
+  __CPROVER_requires(__CPROVER_is_fresh(self->_used_bit_vector, VERIF_W * sizeof(uint64_t))) \
+  __CPROVER_requires(__CPROVER_is_fresh(self->_stop_bit_vector, VERIF_W * sizeof(uint64_t))) \
+  __CPROVER_requires(c_block_snap_alloc(self)) \
+  __CPROVER_requires(c_alloc_pre(self, allocated_area_start, allocated_area_end)) \
+  BLOCK_ASSIGNS(self) \
+  __CPROVER_ensures(c_wf_code(self) == 0) \
+  __CPROVER_ensures(g_w < VERIF_W ==> self->_used_bit_vector[g_w] == (g_used0[g_w] | spec_range_mask64(g_w, allocated_area_start, allocated_area_end - allocated_area_start))) \
+  __CPROVER_ensures(g_w < VERIF_W ==> self->_stop_bit_vector[g_w] == (g_stop0[g_w] | spec_range_mask64(g_w, allocated_area_end - 1, 1))) \
+  __CPROVER_ensures(self->_area_used == g_b0._area_used + (allocated_area_end - allocated_area_start)) \
+  __CPROVER_ensures(self->_pool->total_area_used[LARGE(self)] == g_p0.total_area_used[LARGE(self)] + (allocated_area_end - allocated_area_start)) \
+  __CPROVER_ensures(self->_pool->total_area_used[1 - LARGE(self)] == g_p0.total_area_used[1 - LARGE(self)] && c_pool_unchanged_but_used(self->_pool)) \
+  __CPROVER_ensures((self->_flags & F_EMPTY) == 0)
 
 /* construction / reset of a block */
 #define CONTRACT_JitAllocatorBlock_clear_block \
